@@ -115,6 +115,7 @@ class Buffer(PartHandler):
         min_time_change = np.nextafter(self.env.now, np.inf) - self.env.now
 
         can_continue = True
+        level_before = self.level()
         while len(self._buffer) > 0 and can_continue:
             if self._remaining_wait_time(self._buffer[0][0]) > min_time_change:
                 break
@@ -136,7 +137,11 @@ class Buffer(PartHandler):
                 self._schedule_pass_part_downstream(time_offset = remaining_wait)
             else:
                 self._waiting_for_downstream_space = True
-        self.notify_upstream_of_available_space()
+        # Only announce space that was actually freed; a repeated
+        # announcement can come back as space_available_downstream when
+        # the upstream is a GroupPath of the Group containing this Buffer.
+        if self.level() < level_before:
+            self.notify_upstream_of_available_space()
 
     @staticmethod
     def _get_part_count(part):
